@@ -6,7 +6,7 @@ from .. import spell
 
 LEVEL = 'proof'
 TRUSTED = ['Lean 4 kernel; axioms propext, Classical.choice, Quot.sound only',
-           'the quote! glue of microscpi-macros/src/lib.rs (id <-> handler mapping, emission of the statics) is validated on the generated interfaces (25) of each run (TREE op), not modelled token by token',
+           'the quote! glue of microscpi-macros/src/lib.rs (id <-> handler mapping, emission of the statics) is validated on the generated interfaces (26) of each run (TREE op), not modelled token by token',
            'HashMap in the macro: only its map semantics', 'ASCII declarations (char::is_lowercase / to_uppercase re-stated for ASCII)',
            'correspondence harness + driver (differential testing; covers only generated cases)']
 RULE = ('TREE of every generated interface (real macro expansion vs model); MACRO on seeded random declaration sets (real command.rs/tree.rs '
@@ -126,6 +126,10 @@ def header_cases(rng, iface, tier):
             out.append(Case(deliver(rng, name, text, not (d.beh == 'echo' and 'f64' in d.args)), expected_header_oracle, {'expect': exp, 'kind': 'RUN-spelling'}))
             # misplaced level separators on a valid spelling: surplus trailing, doubled or leading-doubled colon
             hdr = ':'.join(mn)
+            if hdr.startswith('*'):
+                for fm in (':' + hdr, ': ' + hdr):
+                    out.append(Case(deliver(rng, name, (fm + ('?' if query else '')).encode() + bytes([10])), expected_header_oracle,
+                                    {'expect': ('undef',), 'kind': 'RUN-colon'}))
             if not hdr.startswith('*'):
                 forms = [hdr + ':', hdr + ':?', '::' + hdr + ('?' if query else ''), ':' + hdr + ':' + ('?' if query else '')]
                 if len(mn) > 1:
